@@ -106,6 +106,7 @@ impl TowerModel {
             return Executed { world, spec, viols, last_outcome: "boot-failed".into() };
         }
         let mut spec = Spec::new(&world);
+        spec.check_recent_blocks = self.props.contains(&"C19") || std::env::var("VERIF_ALL_PROPS").is_ok();
         let mut last_outcome = String::from("init");
         let all: Vec<&Ev> = self.seed.iter().chain(history.iter()).collect();
         let n = all.len();
@@ -319,6 +320,7 @@ pub fn replay(v: &serde_json::Value) -> i32 {
     let mut world = World::new(cfg);
     world.boot().unwrap();
     let mut spec = Spec::new(&world);
+    spec.check_recent_blocks = h["props"].as_array().map_or(false, |a| a.iter().any(|p| p == "C19"));
     let mut bad = 0;
     for ev in seed.iter().chain(events.iter()) {
         let obs = world.apply(ev);
